@@ -186,6 +186,10 @@ SMT_OPS: List[Tuple[str, str, str]] = [
     ("re.loop", "prefix-old-style", 'str.in_re({x}, re.loop(str.to_re("{a}"), 1, 2))'),
     ("re.loop", "sexpr-old-style", '(str.in_re {x} (re.loop (str.to_re "{a}") 1 2))'),
     ("re.loop", "sexpr-indexed", '(str.in_re {x} ((_ re.loop 1 2) (str.to_re "{a}")))'),
+    # corner values of the bounds: upper bound 0 (only the empty repetition), lower above upper (empty language)
+    ("re.loop", "sexpr-indexed-upper-zero", '(str.in_re {x} ((_ re.loop 0 0) (str.to_re "{a}")))'),
+    ("re.loop", "sexpr-indexed-lower-above-upper", '(str.in_re {x} ((_ re.loop 2 0) (str.to_re "{a}")))'),
+    ("re.loop", "sexpr-indexed-exact", '(str.in_re {x} ((_ re.loop 3 3) (str.to_re "{a}")))'),
     ("re.^", "sexpr-indexed", '(str.in_re {x} ((_ re.^ 2) (str.to_re "{a}")))'),
     ("str.is_digit", "prefix", "str.is_digit({x})"),
     ("str.is_digit", "sexpr", "(str.is_digit {x})"),
